@@ -24,6 +24,14 @@ import units_suites  # noqa: E402
 import c20_iana as iana  # noqa: E402
 import c20_live  # noqa: E402
 
+def coq_bad_indices(*a, **kw):
+    """vlib.coq_bad_indices, retried once when a coqc worker was killed from outside (shared, loaded machine)"""
+    r = vlib.coq_bad_indices(*a, **kw)
+    if r[1] and any(('rc=-9' in e or 'rc=137' in e or 'rc=-15' in e or 'rc=143' in e) for e in r[1]):
+        r = vlib.coq_bad_indices(*a, **kw)
+    return r
+
+
 LEVEL = 'proof'
 META = {
     'text': 'Coq theorems (Props/C20.v), exhaustive over every suite id the library knows x versions (3,0)..(3,4), about '
@@ -40,7 +48,8 @@ META = {
             'including, for TLS 1.3, a KeyUpdate each way checked against an independent hashlib/hmac HKDF chain and '
             'wire-level decryption, post-handshake authentication, PSK resumption and the exporter; TLS<=1.2 resumption by '
             'session ID and ticket incl. a server answering with another suite and a client offering only another suite; '
-            'TLS 1.3 external PSKs of one or both hashes in both orders; non-negotiable pairs must fail. The live stage runs even when the translator refuses or the proof breaks.',
+            'TLS 1.3 external PSKs of one or both hashes in both orders; negative authentication per suite (wrong signing/decryption '
+            'key, empty signature, wrong SRP password/verifier, wrong PSK) must be rejected; non-negotiable pairs must fail. The live stage runs even when the translator refuses or the proof breaks.',
     'note': 'Trusted: Coq kernel + vm_compute; Spec/Iana.v (my transcription of the registry and naming conventions; '
             'cross-checked against CipherSuite.ietfNames and a Python twin); translator/units_suites.py (calls the real '
             'functions; the candidate-list composition and the key-exchange dispatch of tlsconnection.py are read from its ast '
@@ -408,7 +417,7 @@ def meaning_codes(m):
 def brief(r):
     keep = {k: r.get(k) for k in ('sid', 'ver', 'cfg', 'ok', 'outcome', 'wire', 'cli', 'srv', 'fact', 'prfs', 'hkdf',
                                   'c2s', 's2c', 'n', 'error', 'variant', 'exporter', 'post', 'words', 'cred', 'asked',
-                                  'resume', 'psk', 'psks', 'case')}
+                                  'resume', 'psk', 'psks', 'case', 'negauth', 'completed', 'sig_emptied', 'client_view')}
     return keep
 
 
@@ -458,6 +467,27 @@ def live_cases(ctx, d, quick):
             alt = alts[0] if alts else None
             for mode in ('sid', 'ticket') + (('srv-deviates', 'cli-deviates') if alt is not None else ()):
                 cases.append({'sid': sid, 'ver': (3, vi), 'cfg': 'client-pinned', 'resume': mode, 'alt': alt, 'expect': exp,
+                              'seed': ctx.rng.randrange(1 << 30)})
+    # negative authentication: the peer satisfies everything except the one authentication the NAME denotes
+    for sid in ids:
+        m = iana.meaning(sid)
+        cert = m['auth'] in ('RSA', 'DSS', 'ECDSA')
+        if m['kx'] == 'RSA':
+            variants = ['wrong-key', 'other-cert-type']
+        elif m['kx'] in ('DHE', 'ECDHE') and cert:
+            variants = ['wrong-key', 'empty-sig', 'other-cert-type']
+        elif m['kx'] == 'SRP':
+            variants = (['wrong-key', 'empty-sig', 'other-cert-type'] if cert else []) + ['wrong-password', 'wrong-verifier']
+        elif m['kx'] == 'TLS13':
+            variants = ['wrong-key', 'empty-sig', 'wrong-psk']
+        else:
+            continue            # anonymous: nothing is authenticated; static (EC)DH: not negotiable
+        for vi in range(5):
+            exp = None if negset is None else ((sid, vi) in negset)
+            if exp is False or not iana.defined_in(m, (3, vi)):
+                continue
+            for var in variants:
+                cases.append({'sid': sid, 'ver': (3, vi), 'cfg': 'client-pinned', 'negauth': var, 'post': False, 'expect': exp,
                               'seed': ctx.rng.randrange(1 << 30)})
     # TLS 1.3 with externally provisioned PSKs bound to one hash or to both, in both orders, with and without a certificate
     for sid in ids:
@@ -567,7 +597,7 @@ def run(ctx):
             m = iana.meaning(sid)
             lits.append('(%d, %s, %s)' % (sid, ostr(iana.name_of(sid)), optlit(None if m is None else meaning_codes(m),
                                                                              lambda c: listlit(c, zlit))))
-        badt, errs = vlib.coq_bad_indices('C20t', ['Spec.Iana', 'Model.C20_Live'], 'Z * option string * option (list Z)',
+        badt, errs = coq_bad_indices('C20t', ['Spec.Iana', 'Model.C20_Live'], 'Z * option string * option (list Z)',
                                           'twin_ok', lits, shard=400)
         ctx.count('registry-twin(Coq vs Python)', len(lits), [('ids', len(lits) - len(badt))])
         for e in errs:
@@ -578,12 +608,13 @@ def run(ctx):
     cases = live_cases(ctx, d, quick)
     with multiprocessing.Pool(vlib.NPROC) as pool:
         results = pool.map(c20_live.run_case, cases, chunksize=4)
-    plain = [c for c in cases if not (c.get('resume') or c.get('psks') or c.get('words'))]
+    plain = [c for c in cases if not (c.get('resume') or c.get('psks') or c.get('words') or c.get('negauth'))]
     ctx.log('live: %d cases (%d expected to complete, %d expected to fail, %d judged from the registry alone; %d word clients, '
-            '%d resumption sequences, %d external-PSK handshakes)'
+            '%d resumption sequences, %d external-PSK handshakes, %d negative-authentication handshakes)'
             % (len(results), sum(1 for c in plain if c['expect'] is True), sum(1 for c in plain if c['expect'] is False),
                sum(1 for c in plain if c['expect'] is None), sum(1 for c in cases if c.get('words')),
-               sum(1 for c in cases if c.get('resume')), sum(1 for c in cases if c.get('psks'))))
+               sum(1 for c in cases if c.get('resume')), sum(1 for c in cases if c.get('psks')),
+               sum(1 for c in cases if c.get('negauth'))))
     good = []
     psk_results, resume_notes = [], {}
     for c, r in zip(cases, results):
@@ -602,6 +633,29 @@ def run(ctx):
                                       'version does not define%s' % (r['cfg'], w['sh_ver'], w['sh_suite'], iana.name_of(w['sh_suite']),
                                                                      '' if r['ok'] else ' (the client then aborted: %s)' % (r.get('outcome') or ['?'])[0]),
                                       {'kind': 'live', 'case': brief(r), 'how': './check C20 --replay <this file>'}) or found
+        if c.get('negauth'):
+            var = c['negauth']
+            ctx.count('live(negative authentication)', 1, [(r['sid'], r['ver'], var, tuple(r.get('completed') or ()))])
+            if r.get('error') and not r.get('outcome'):
+                tie_broken = tie_broken or ('negative-authentication case %s 0x%04X could not be run: %s' % (var, r['sid'], r['error']))
+            elif var == 'empty-sig' and not r.get('sig_emptied'):
+                tie_broken = tie_broken or ('0x%04X at (3,%d): no ServerKeyExchange/CertificateVerify passed the server\'s send path '
+                                            '(deviation not applied); outcome %s' % (r['sid'], r['ver'], r.get('outcome')))
+            elif any(r.get('completed') or ()):
+                mm = iana.meaning(r['sid'])
+                found = ctx.violation('auth-not-enforced:%s:0x%04x' % (var, r['sid']),
+                                      '0x%04X %s at (3,%d): the handshake completed (client %s, server %s) although the peer failed the '
+                                      'one authentication the name denotes (%s/%s): %s; client session reports %s'
+                                      % (r['sid'], iana.name_of(r['sid']), r['ver'], r['completed'][0], r['completed'][1], mm['kx'], mm['auth'],
+                                         {'wrong-key': 'server signs / decrypts with a private key that does not belong to its certificate',
+                                          'empty-sig': 'server sends an empty %s signature' % r.get('sig_emptied'),
+                                          'wrong-password': 'SRP client uses a wrong password',
+                                          'wrong-verifier': 'SRP server holds the verifier of another password',
+                                          'wrong-psk': 'server holds another secret for the PSK identity, no certificate',
+                                          'other-cert-type': 'server holds a certificate and key of another key type than the name denotes'}[var],
+                                         r.get('client_view')),
+                                      {'kind': 'live', 'case': brief(r), 'how': './check C20 --replay <this file>'}) or found
+            continue
         if c.get('psks'):
             ctx.count('live(TLS 1.3 external PSKs)', 1, [(r['sid'], tuple(c['psks']), c['cert'], r['ok'], (r.get('psk') or {}).get('selected'))])
             psk_results.append(r)
@@ -687,7 +741,7 @@ def run(ctx):
         if why:
             psk_flag[id(r)] = (r, why)
     if psk_done and (res['model_ok'] or vlib.coq_make(['Spec/Iana.vo', 'Model/C20_Live.vo'])[0]):
-        badk, errs = vlib.coq_bad_indices('C20k', ['Spec.Iana', 'Model.C20_Live'], 'pskobs', 'chk_pskobs',
+        badk, errs = coq_bad_indices('C20k', ['Spec.Iana', 'Model.C20_Live'], 'pskobs', 'chk_pskobs',
                                           [psk_lit(r) for r in psk_done], shard=64)
         ctx.count('psk-vs-parsed-name(vm_compute)', len(psk_done), [('cases', len(psk_done))])
         for e in errs:
@@ -724,7 +778,7 @@ def run(ctx):
         live_model_ok = vlib.coq_make(['Spec/Iana.vo', 'Model/C20_Live.vo'])[0]
     if live_model_ok and good:
         lits = [obs_lit(r) for r in good]
-        bads, errs = vlib.coq_bad_indices('C20l', ['Spec.Iana', 'Model.C20_Live'], 'obs', LIVE_CHECKS, lits,
+        bads, errs = coq_bad_indices('C20l', ['Spec.Iana', 'Model.C20_Live'], 'obs', LIVE_CHECKS, lits,
                                           shard=max(8, (len(lits) + 15) // 16))
         ctx.count('live-vs-parsed-name(vm_compute)', len(lits) * len(LIVE_CHECKS), [('cases', len(lits))])
         for e in errs:
@@ -770,6 +824,14 @@ def replay(ctx, path):
         r = json.load(f)
     if r.get('kind') == 'live':
         c = r['case']
+        if c.get('case') and c['case'].get('negauth'):
+            cc = dict(c['case'])
+            cc['ver'] = tuple(cc['ver'])
+            out = c20_live.run_case(cc)
+            print(json.dumps(brief(out), indent=1, default=str))
+            bad = ['auth-not-enforced'] if any(out.get('completed') or ()) else []
+            print('failing checks: %s' % bad)
+            return 1 if bad else 0
         if c.get('case') and (c['case'].get('resume') or c['case'].get('psks')):
             cc = dict(c['case'])
             cc['ver'] = tuple(cc['ver'])
